@@ -16,7 +16,7 @@ V = "/verif"; S = os.environ.get("MUT_SCRATCH", "/tmp/mm")
 ORDER = ["C20", "C01", "C10", "C02", "C09", "C14", "C07", "C13", "C08", "C16", "C17", "C18", "C15", "C19", "C05", "C04", "C06", "C11", "C12", "C03"]
 
 def sh(cmd, **kw):
-    return subprocess.run(cmd, shell=True, text=True, stdout=subprocess.PIPE, stderr=subprocess.STDOUT, **kw)
+    return subprocess.run(cmd, shell=True, text=True, errors="replace", stdout=subprocess.PIPE, stderr=subprocess.STDOUT, **kw)
 
 def setup():
     os.makedirs(S, exist_ok=True)
@@ -141,7 +141,7 @@ def main():
                 r = sh(f"cd {S} && timeout 900 {S}/target/fast/mqtt-mc {cid} --tier quick --profile fast --out {out}")
                 if r.returncode != 0:
                     verdict = f"KILLED-BY {cid} (harness exit {r.returncode})"; break
-                j = json.load(open(out))
+                j = json.load(open(out, encoding="utf-8", errors="replace"))
                 ks = [v["key"] for v in j["violation_list"] if not any(km(k["key"], v["key"]) and k["property"] == cid for k in known())]
                 if ks:
                     verdict = f"KILLED-BY {cid} {ks[0][:60]}"; break
